@@ -42,6 +42,16 @@ def B(name, *edits):
     return {"kind": "benign", "name": name, "edits": list(edits)}
 
 
+
+_NDITER_BLOCK = '        it = np.nditer(\n            [log_e_nu, beta, u, None],\n            flags=["external_loop", "buffered"],\n            op_flags=[\n                ["readonly"],\n                ["readonly"],\n                ["readwrite", "virtual"] if u is None else ["readonly"],\n                ["writeonly", "allocate", "no_broadcast"],\n            ],\n        )\n\n        with it:\n            for li, bi, ui, zi in it:\n                cdfs = interpn(\n                    (grid["log_e_nu"], grid["beta_rad"]), grid.data, (li, bi)\n                )\n                ui = np.random.uniform(0.0, 1.0, size=bi.size) if u is None else ui\n                zi[...] = vec_1d_interp(cdfs, grid["e_tau_frac"], ui)\n            return it.operands[3]\n'
+
+
+def _nditer_supplied(alloc):
+    b = _NDITER_BLOCK.replace("[log_e_nu, beta, u, None]", "[log_e_nu, beta, u, z]").replace(
+        '["writeonly", "allocate", "no_broadcast"]', '["writeonly", "no_broadcast"]').replace(
+        "            return it.operands[3]\n", "\n        return z\n")
+    return "        z = %s\n" % alloc + b
+
 CORPUS = {}
 
 CORPUS["C01"] = [
@@ -111,6 +121,10 @@ CORPUS["C03"] = [
 ]
 
 CORPUS["C04"] = [
+    M("result array supplied to the iterator with the energies' element type", (CDF, _NDITER_BLOCK, _nditer_supplied('np.empty_like(log_e_nu)'))),
+    M('result array supplied to the iterator with an integer element type', (CDF, _NDITER_BLOCK, _nditer_supplied('np.empty(log_e_nu.shape, dtype=int)'))),
+    B('result array supplied to the iterator, default float', (CDF, _NDITER_BLOCK, _nditer_supplied('np.empty(log_e_nu.shape)'))),
+    B('result array supplied to the iterator, like the energies but float64', (CDF, _NDITER_BLOCK, _nditer_supplied('np.empty_like(log_e_nu, dtype=np.float64)'))),
     M("explicit u unmasked", (TAUS, "None if u is None else u[valid]", "u")),
     M("high-angle value 1.0", (TAUS, "E_tau[beta_high] = np.finfo(np.float32).eps", "E_tau[beta_high] = 1.0")),
     M("bounds check disabled", (CDF, '(grid["log_e_nu"], grid["beta_rad"]), grid.data, (li, bi)\n                )',
